@@ -4,7 +4,7 @@
 import SV.Misc.AdapterProofs
 import SV.Misc.AdapterMore
 import SV.GenProofs.LRU
-import SV.FactsProofs.Unit
+import SV.FactsProofs.Adapter
 namespace SV.Props.C17
 open SV SV.Adapter
 
